@@ -188,7 +188,7 @@ static std::string in_child(const std::function<std::string()> &f, const std::fu
         close(fd[0]);
         int ef = open(errfile.c_str(), O_WRONLY | O_CREAT | O_TRUNC, 0600); if (ef >= 0) { dup2(ef, 2); close(ef); }
         child_terminate_is_abort();
-        alarm(g_san ? 4 * seconds : seconds);
+        vr::cpu_alarm(g_san ? 4 * seconds : seconds);
         std::string s = f();
         size_t off = 0; while (off < s.size()) { ssize_t w = write(fd[1], s.data() + off, s.size() - off); if (w <= 0) break; off += w; }
         _exit(0);
@@ -223,7 +223,7 @@ static void drive(int N, const std::function<std::string(int, bool)> &run) {
             int ef = open(P("stderr-batch.txt").c_str(), O_WRONLY | O_CREAT | O_TRUNC, 0600); if (ef >= 0) { dup2(ef, 2); close(ef); }
             child_terminate_is_abort();
             for (int j = idx; j < end; ++j) {
-                alarm(g_san ? 20 : 5);
+                vr::cpu_alarm(g_san ? 20 : 5);
                 std::string s = run(j, false) + "\n";
                 size_t off = 0; while (off < s.size()) { ssize_t w = write(fd[1], s.data() + off, s.size() - off); if (w <= 0) _exit(9); off += w; }
             }
